@@ -2610,6 +2610,415 @@ def handle_fs(chk, root, script):
         chk.fail(kind, sig, what, {"fs": shrink_fs(chk, root, script, sig) if kind == "violation" else script})
 
 
+# ------------------------------------------------------------------------------------------------
+# torn writes: a crash, or an I/O error, inside one PersistentData.write_file call; and a crash between the server's
+# answer to create_job and the write that follows it (model: PM.C19.TW, `crashAfterAnswer`)
+# ------------------------------------------------------------------------------------------------
+SIG_TORN = "torn-write-leaves-group-unopenable"
+TW_KINDS = ["plain", "plain", "ctx", "cmd", "body-json", "sampler-probs", "presets"]
+TW_CUTS = ["before", "opened", "full"]
+
+
+class TornOpen:
+    """Stands for the builtin `open` inside perceval.utils.persistent_data while one operation runs.  The `w`-th
+    opening for writing is torn: `cut` = "before" (the process stops before the open: nothing is touched), "opened"
+    (after the open, before any character), a fraction f (after that share of the characters — at least one, not
+    all), "full" (after the last character, before the file is closed); `fault` = "kill" (the process dies: nothing
+    runs afterwards) or "oserror" (the I/O layer raises OSError: the code goes on).  Every opening for writing is
+    recorded as (group file before, text handed to write, characters that reached the file | "complete")."""
+
+    def __init__(self, env, w, cut, fault):
+        self.env, self.w, self.cut, self.fault = env, w, cut, fault
+        self.n, self.dead, self.events, self.pending = 0, False, [], None
+
+    def group_text(self):
+        try:
+            with open(self.env.file, encoding="UTF-8") as f:
+                return f.read()
+        except FileNotFoundError:
+            return None
+
+    def boom(self):
+        if self.fault == "kill":
+            self.dead = True
+            return Kill()
+        return OSError(28, "No space left on device")
+
+    def __call__(self, path, mode="r", *a, **k):
+        if not any(ch in mode for ch in "wax"):
+            return open(path, mode, *a, **k)
+        if self.dead:
+            raise Kill()
+        self.n += 1
+        old = self.group_text()
+        if self.n == self.w and self.cut == "before":
+            self.events.append([old, self.pending, 0])
+            raise self.boom()
+        return _TornFile(self, old, open(path, mode, *a, **k), self.n == self.w)
+
+
+class _TornFile:
+    """the file object of one opening for writing (the text may arrive in several `write` calls)"""
+
+    def __init__(self, owner, old, real, torn):
+        self.owner, self.old, self.real, self.torn = owner, old, real, torn
+        self.got, self.recorded = "", False
+
+    def __enter__(self):
+        return self
+
+    def __exit__(self, *exc):
+        if not self.real.closed:
+            self.real.close()
+        if not self.recorded and exc[0] is None:
+            self.recorded = True
+            self.owner.events.append([self.old, self.got, "complete"])
+        return False
+
+    def __getattr__(self, name):
+        return getattr(self.real, name)
+
+    def close(self):
+        self.__exit__(None, None, None)
+
+    def write(self, data):
+        o = self.owner
+        if not self.torn:
+            self.got += data
+            return self.real.write(data)
+        whole = o.pending if isinstance(o.pending, str) and o.pending.startswith(self.got + data) else self.got + data
+        if o.cut == "opened":
+            k = 0
+        elif o.cut == "full":
+            k = len(whole)
+        else:
+            k = max(1, min(len(whole) - 1, int(o.cut * len(whole))))
+        if len(self.got) + len(data) < k or (o.cut == "full" and len(self.got) + len(data) < len(whole)):
+            self.got += data
+            return self.real.write(data)
+        self.real.write(data[:k - len(self.got)])
+        self.real.close()
+        self.recorded = True
+        o.events.append([self.old, whole, k + 1])
+        raise o.boom()
+
+
+def tw_group_view(env, text):
+    """what a group file text says: creation stamp + canonical entries"""
+    try:
+        d = json.loads(text)
+    except ValueError:        # the text before a write may itself be what an earlier write error left
+        return None
+    return [d["created_date"], [env.canon_entry(e) for e in d["job_group_data"]]]
+
+
+def tw_reopen(env, old, new):
+    """JobGroup(name) in a fresh object, on whatever file there is -> "fresh" | "raises:<class>" |
+    {"loaded": {"old": b, "new": b}}"""
+    existed = os.path.exists(env.file)
+    try:
+        with warnings.catch_warnings():
+            warnings.simplefilter("ignore")
+            g = env.JobGroup(env.group)
+            if not existed:
+                return "fresh" if len(g) == 0 else {"loaded": {"old": False, "new": False}}
+            got = [g.created_date.strftime("%Y%m%d_%H%M%S"), env.canon_group_json(g)]
+    except Exception as e:   # noqa: BLE001
+        if through_code_under_test(e) is None:
+            raise
+        return "raises:" + type(e).__name__
+    return {"loaded": {"old": old is not None and got == tw_group_view(env, old),
+                       "new": new is not None and got == tw_group_view(env, new)}}
+
+
+def tw_put(env, text):
+    if text is None:
+        if os.path.exists(env.file):
+            os.remove(env.file)
+    else:
+        with open(env.file, "wt", encoding="UTF-8") as f:
+            f.write(text)
+
+
+def tw_agree(real, model):
+    """the model speaks about texts, the observation about what the texts say: a model flag must be observed"""
+    if isinstance(model, str):
+        return real == model or (model == "raises" and isinstance(real, str) and real.startswith("raises:"))
+    if not isinstance(real, dict):
+        return False
+    return all(real["loaded"][k_] for k_ in ("old", "new") if model["loaded"][k_])
+
+
+def run_tw(root, sc, impl, variant, lean, n_sweep=0, sweep_seed=0):
+    """scenario = {"hist": prefix history (ops of the main families), "torn": {"kind": create|add|launch|progress,
+    "job", "kw", "sts", "w", "cut", "fault"}} -> dict(findings=[(kind, sig, what)], info=…)"""
+    import perceval.utils.persistent_data as pdmod
+    hist, torn = sc["hist"], sc["torn"]
+    r = Runner(root, True, hist.get("name", GROUP))
+    env, srv = r.env, r.env.server
+    out = {"findings": [], "info": {}}
+    bad = out["findings"]
+    try:
+        for op in hist["ops"]:
+            r.step(copy.deepcopy(op))
+        if r.oracle or r.dead:
+            out["info"]["skipped"] = "prefix"       # judged by the main families
+            return out
+        jg = r.jg
+        ids_before = [e["id"] for e in (env.read_file() or []) if e["id"] is not None]
+        n_unsent = len([j for j in jg.remote_jobs if not j.was_sent])
+        to = TornOpen(env, torn["w"], torn["cut"], torn["fault"])
+        pd = env.JobGroup._PERSISTENT_DATA
+        real_write = pd.write_file
+
+        def write_file(filename, data, file_format):
+            to.pending = data
+            return real_write(filename, data, file_format)
+
+        pd.write_file = write_file
+        pdmod.open = to
+        res, mem_after = "ok", None
+        try:
+            with warnings.catch_warnings():
+                warnings.simplefilter("ignore")
+                _CLOCK["tick"] += 1
+                kind = torn["kind"]
+                if kind == "create":
+                    JobGroup_name = env.group + "-2"
+                    env.group, env.file = JobGroup_name, env.file_of(JobGroup_name)
+                    jg = env.JobGroup(JobGroup_name)
+                elif kind == "add":
+                    job = env.build_job(torn["job"])
+                    srv.script([], [])
+                    if torn.get("kw") is None:
+                        jg.add(job)
+                    else:
+                        jg.add(job, max_samples=torn["kw"])
+                elif kind == "launch":
+                    srv.script([{"accept": 0}] * n_unsent, [])
+                    jg.run_parallel()
+                elif kind == "progress":
+                    srv.script([], torn["sts"])
+                    jg.progress()
+                else:
+                    raise RuntimeError(f"unknown torn operation {kind}")
+                if jg is not None:
+                    mem_after = [env.canon_entry(e) for e in jg._to_json()["job_group_data"]]
+        except Kill:
+            res = "killed"
+        except Exception as e:   # noqa: BLE001
+            if through_code_under_test(e) is None:
+                raise
+            res = exc_name(e)
+        finally:
+            del pdmod.open
+            del pd.write_file
+        out["info"].update({"res": res, "writes": to.n, "events": [[o is not None, n is not None and len(n), c] for o, n, c in to.events]})
+        fired = [ev for ev in to.events if ev[2] != "complete"]
+        if not fired:
+            out["info"]["skipped"] = "write-not-reached"
+            return out
+        if (torn["fault"] == "kill") != (res == "killed"):
+            bad.append(("broken", "model-vs-code-torn-write",
+                        f"{torn} after {len(hist['ops'])} operations: the operation ended with {res}"))
+            return out
+        old, new, c = to.events[-1]
+        complete = len(new) + (1 if impl == "inPlace" else 3) if new is not None else 0
+        cnum = complete if c == "complete" else c
+        real = tw_reopen(env, old, new)
+        out["info"]["reopen"] = real if isinstance(real, str) else "loaded"
+        out["info"]["last_event_torn"] = c != "complete"
+        # direct oracle: a file left by a process that died is refused or is one of the two groups — never a third
+        if (isinstance(real, dict) and not (real["loaded"]["old"] or real["loaded"]["new"])) \
+                or (real == "fresh" and old is not None):
+            bad.append(("violation", "torn-file-misread",
+                        f"{torn} after {len(hist['ops'])} operations (the write stopped after {cnum} of its events, text of "
+                        f"{len(new or '')} characters): the re-opened group ({real if isinstance(real, str) else 'loaded'}) is neither the group before the write "
+                        f"nor the group written"))
+            return out
+        rep = lean.ask({"tw": {"old": old, "new": new if new is not None else "{}", "impl": impl, "cuts": [cnum]}})
+        if "err" in rep:
+            bad.append(("broken", "model-vs-code-torn-write", f"the model rejected the request: {rep['err']}"))
+            return out
+        if new is not None and not (rep["accepts_new"] and rep["ends_black"]):
+            bad.append(("broken", "model-vs-code-torn-write",
+                        f"the model's json.loads refuses the text the code wrote (or it ends in white space): {new[:300]!r}"))
+            return out
+        if not tw_agree(real, rep["out"][0]):
+            bad.append(("broken", "model-vs-code-torn-write",
+                        f"{torn} after {len(hist['ops'])} operations, {impl} write stopped after {cnum} events of "
+                        f"{complete}: re-opening gives {real}, the model {rep['out'][0]}"))
+            return out
+        if torn["fault"] == "oserror" and c != "complete" and res == "ok" and mem_after is not None:
+            out["info"]["write_error_swallowed"] = isinstance(real, str) or not real["loaded"]["new"]
+        # the process died between the server's answer and the write: only the identifier in flight is lost
+        if torn["kind"] == "launch" and torn["fault"] == "kill" and torn["cut"] == "before":
+            acc = list(srv.accepted)
+            on_disk = [e["id"] for e in (env.read_file() or []) if e["id"] is not None]
+            out["info"]["crash_after_answer"] = True
+            if len(acc) != torn["w"] or any(k not in on_disk for k in acc[:-1]) or acc[-1] in on_disk \
+                    or any(k not in on_disk for k in ids_before):
+                bad.append(("violation", "accepted-id-lost",
+                            f"run_parallel() on {n_unsent} unsent jobs, the process dying between the server's answer number "
+                            f"{torn['w']} and the write that follows: the server issued {acc}, the file held {ids_before} "
+                            f"before and holds {on_disk}: an identifier other than the one in flight is missing"))
+                return out
+            lop = {"op": "launch", "rerun": False, "replace": False, "seq": False,
+                   "outs": [{"accept": 0}] * (torn["w"] - 1), "sts": []}
+            rep = lean.ask({"variant": variant, "dir": True, "ops": r.lean_ops + [lop], "caa": 0})
+            issued = [k for k, _p in srv.all_created][::-1]
+            if "err" in rep or rep["caa"]["disk_ids"] != on_disk or rep["caa"]["issued"] != issued \
+                    or not rep["caa"]["disk_same"]:
+                bad.append(("broken", "model-vs-code-crash-after-answer",
+                            f"file identifiers {on_disk}, issued {issued}; the model: {rep.get('caa', rep)}"))
+                return out
+        # every prefix of the text written, as the file a fresh process finds
+        if n_sweep and new is not None:
+            rs = __import__("random").Random(sweep_seed)
+            n = len(new)
+            # the model evaluates `reopen (fileAt …)` afresh for every stopping point (cost ~ cuts x length): budget
+            n_sweep = max(12, min(n_sweep, (n_sweep * 130) // max(n, 1)))
+            ks = set(range(n + 1)) if n <= n_sweep else \
+                set(rs.sample(range(n + 1), n_sweep)) | {0, 1, 2, n - 2, n - 1, n} | \
+                {i + 1 for i in rs.sample([i for i, ch in enumerate(new) if ch in '{}[]",:\\'], min(n_sweep // 3, len([ch for ch in new if ch in '{}[]",:\\'])))}
+            ks = sorted(k_ for k_ in ks if 0 <= k_ <= n)
+            rep = lean.ask({"tw": {"old": None, "new": new, "impl": "inPlace", "cuts": [k_ + 1 for k_ in ks]}})
+            for k_, m in zip(ks, rep["out"]):
+                tw_put(env, new[:k_])
+                got = tw_reopen(env, None, new)
+                if not tw_agree(got, m) or (isinstance(got, dict) and k_ < n):
+                    bad.append(("violation" if isinstance(got, dict) and k_ < n else "broken",
+                                "torn-file-misread" if isinstance(got, dict) and k_ < n else "model-vs-code-torn-write",
+                                f"the first {k_} of {n} characters of a group file ({new[:k_][-60:]!r}): re-opening gives "
+                                f"{got}, the model {m}"))
+                    break
+            out["info"]["sweep"] = len(ks)
+    finally:
+        r.finish()
+    return out
+
+
+def gen_tw(rng, chk, root):
+    """a prefix built online (adds, parallel launches that are all accepted, status refreshes), then one torn operation"""
+    runner = Runner(root, True, gen_name(rng))
+    for _ in range(rng.randint(0, 5)):
+        n, unsent, active, failed, ids = group_state(runner)
+        what = "add" if n == 0 else rng.choice(["add", "add", "launch", "progress"])
+        if what == "add":
+            op = gen_job(rng, chk, rng.choice(TW_KINDS), GenState(ids, runner.env.server.skipped, []))
+        elif what == "launch":
+            op = {"op": "launch", "rerun": False, "replace": False, "seq": False, "outs": [{"accept": 0}] * unsent, "sts": []}
+        else:
+            op = {"op": "progress", "sts": [rand_status(rng) for _ in range(active)]}
+        op["dt"] = rng.choice([0, 1])
+        runner.step(op)
+    n, unsent, active, failed, ids = group_state(runner)
+    kinds = ["create", "add", "add"] + (["launch"] * 3 if unsent else []) + (["progress"] * 2 if active else [])
+    kind = rng.choice(kinds)
+    torn = {"kind": kind, "w": 1, "fault": rng.choice(["kill", "kill", "oserror"]),
+            "cut": rng.choice(TW_CUTS + [round(rng.uniform(0.02, 0.98), 3)] * 3)}
+    if kind == "add":
+        op = gen_job(rng, chk, rng.choice(TW_KINDS), GenState(ids, runner.env.server.skipped, []))
+        torn["job"], torn["kw"] = op["job"], op["kw"]
+    elif kind == "launch":
+        torn["w"] = rng.randint(1, unsent)
+        if rng.random() < 0.5:
+            torn["cut"], torn["fault"] = "before", "kill"
+    elif kind == "progress":
+        # every active job changes status: one write per job
+        torn["sts"] = ["SUSPENDED"] * active
+        torn["w"] = rng.randint(1, active)
+    hist, _real = runner.finish()
+    return {"hist": hist, "torn": torn}
+
+
+TW_WITNESS = {"hist": {"dir": True, "ops": [{"op": "add", "job": dict(PLAIN), "kw": None}]},
+              "torn": {"kind": "add", "job": dict(PLAIN, name=2), "kw": None, "w": 1, "cut": 0.5, "fault": "kill"}}
+TW_WITNESS_WHAT = ("outside the property's stopping points (which lie between operations and at server calls), recorded as an "
+                   "observation: PersistentData.write_file replaces the group file in place (open(path, 'wt') truncates, then "
+                   "the JSON text is written), so a process that stops inside one _write_to_file — or an OSError there, which "
+                   "write_file swallows with a warning so that the operation returns normally — leaves a file json.loads "
+                   "refuses: JobGroup(name) raises JSONDecodeError from then on, every identifier the file held is out of "
+                   "reach of the API, and neither the group before the write nor the group written is found (model: "
+                   "TW.torn_write_outcomes, TW.in_place_write_not_atomic; a write through a temporary file renamed onto the "
+                   "group file would leave one of the two at every stopping point: TW.write_via_temp_atomic)")
+
+
+def detect_write_impl(chk, root, variant):
+    """-> "inPlace" | "viaTemp": what the file looks like when a write stops half-way"""
+    import perceval.utils.persistent_data as pdmod   # noqa: F401
+    probe = run_tw(root, TW_WITNESS, "inPlace", variant, chk.lean)
+    chk.branch("witness-tw")
+    how = probe["info"].get("reopen")
+    chk.case(("witness", "tw", how), nontrivial=True)
+    if how == "loaded" and not probe["findings"] == []:
+        # the previous group is found: the write does not touch the group file before it is complete
+        again = run_tw(root, TW_WITNESS, "viaTemp", variant, chk.lean)
+        if not again["findings"]:
+            return "viaTemp"
+    if isinstance(how, str) and how.startswith("raises:") and not probe["findings"]:
+        chk.count("out_of_scope_observations", SIG_TORN)
+        chk.extra["out_of_scope_observation_" + SIG_TORN] = TW_WITNESS_WHAT
+        return "inPlace"
+    for kind, sig, what in probe["findings"][:1]:
+        chk.fail(kind, sig, "torn-write witness: " + what, {"tw": TW_WITNESS})
+    return "inPlace"
+
+
+def judge_tw(chk, root, sc, impl, variant, n_sweep=0):
+    return run_tw(root, sc, impl, variant, chk.lean, n_sweep, chk.seed)
+
+
+def shrink_tw(chk, root, sc, impl, variant, sig):
+    cur = copy.deepcopy(sc)
+    changed = True
+    while changed:
+        changed = False
+        for i in range(len(cur["hist"]["ops"]) - 1, -1, -1):
+            cand = copy.deepcopy(cur)
+            del cand["hist"]["ops"][i]
+            try:
+                if any(s_ == sig for (_k, s_, _w) in judge_tw(chk, root, cand, impl, variant)["findings"]):
+                    cur, changed = cand, True
+                    break
+            except Exception:   # noqa: BLE001 — a shortened prefix need not be a legal history
+                continue
+    return cur
+
+
+def handle_tw(chk, root, sc, impl, variant, n_sweep):
+    out = judge_tw(chk, root, sc, impl, variant, n_sweep)
+    info, torn = out["info"], sc["torn"]
+    chk.case(("tw", torn["kind"], torn["fault"], torn["cut"] if isinstance(torn["cut"], str) else "inner", torn["w"],
+              len(sc["hist"]["ops"]), info.get("reopen")), nontrivial="skipped" not in info)
+    if "skipped" in info:
+        chk.count("tw_skipped", info["skipped"])
+    else:
+        chk.branch("tw-scenario")
+        chk.branch("tw-" + torn["kind"])
+        chk.branch("tw-" + torn["fault"])
+        chk.branch("tw-cut-" + (torn["cut"] if isinstance(torn["cut"], str) else "inner"))
+        chk.count("tw_reopen", str(info.get("reopen")))
+        if info.get("crash_after_answer"):
+            chk.branch("tw-crash-after-answer")
+        if info.get("sweep"):
+            chk.branch("tw-sweep")
+            chk.count("tw_sweep_prefixes", "total", info["sweep"])
+        if info.get("write_error_swallowed"):
+            chk.branch("tw-write-error-swallowed")
+            chk.count("out_of_scope_observations", "write-error-swallowed")
+        if torn["w"] > 1:
+            chk.branch("tw-later-write")
+        if not info.get("last_event_torn", True):
+            chk.branch("tw-oserror-repaired-by-later-write")
+    for kind, sig, what in out["findings"]:
+        seen = chk.extra.setdefault("failing_histories_per_signature", {})
+        seen[sig] = seen.get(sig, 0) + 1
+        if seen[sig] > 1:
+            continue
+        chk.fail(kind, sig, what[:900], {"tw": shrink_tw(chk, root, sc, impl, variant, sig), "impl": impl})
+
+
 def setup_perceval():
     warnings.simplefilter("ignore")
     try:
@@ -2625,7 +3034,8 @@ def load_corpus():
     out = []
     for p in sorted(glob.glob(os.path.join(core.VERIF, "corpus", "C19", "*.json"))):
         d = json.load(open(p))
-        out.append(("fs", d["fs"]) if "fs" in d else ("ns", d["ns"]) if "ns" in d else ("history", d["history"]))
+        out.append(("fs", d["fs"]) if "fs" in d else ("ns", d["ns"]) if "ns" in d else ("tw", d["tw"]) if "tw" in d
+                   else ("history", d["history"]))
     return out
 
 
@@ -2657,8 +3067,11 @@ def run(chk: core.Check):
         "every request (the rule that decides it — status code, five faults in a row — is C17's subject, not checked here)",
         "a killed process executes nothing after the server call it died in: what the code under test writes while the "
         "harness's stand-in exception for the kill unwinds (finally / except clauses) is undone before re-opening",
-        "crash points are server calls and operation boundaries; a crash between the server's answer and the next file "
-        "write, and torn writes inside one PersistentData.write_file call, are outside the model (stated residue)",
+        "crash points of the main machine are server calls and operation boundaries; stopping points inside one "
+        "PersistentData.write_file call (characters reach the file in order: any prefix of the text may be what is left) "
+        "and between the server's answer to create_job and the write that follows are modelled separately (PM.C19.TW, "
+        "crashAfterAnswer) and exercised by the torn-write scenarios; that the group cannot be re-opened after a write "
+        "stopped half-way is recorded as an observation, not judged (the property's stopping points lie between operations)",
         "RemoteJob.STATUS_REFRESH_DELAY is set to -1 so that every status evaluation may observe a new server status "
         "(models more than 1 s between evaluations)",
         "command delta parameters limited to max_samples, mapping delta parameters to {max_samples, max_shots} (what Sampler builds)",
@@ -2711,7 +3124,12 @@ def run(chk: core.Check):
                              "nonjson-body-add", "nonjson-body-add-to-non-empty-group", "nonjson-body-success-job-add",
                              "unsendable-body-add", "json-exotic-body-add", "sampler-iterations-job",
                              "launch-after-reopen-with-exotic-body", "launch-after-nonjson-body-add",
-                             "exhaustive-bodies", "witness-iterations"]
+                             "exhaustive-bodies", "witness-iterations",
+                             # second extension: stopping points inside a file write, and between the server's answer and
+                             # the write that follows it
+                             "witness-tw", "tw-scenario", "tw-create", "tw-add", "tw-launch", "tw-progress", "tw-kill",
+                             "tw-oserror", "tw-cut-before", "tw-cut-opened", "tw-cut-inner", "tw-cut-full",
+                             "tw-crash-after-answer", "tw-sweep", "tw-later-write"]
     setup_perceval()
     chk.lean = core.LeanDriver("C19")
     root = tempfile.mkdtemp(prefix="run-", dir=_ROOT)
@@ -2729,14 +3147,25 @@ def run(chk: core.Check):
         chk.extra["code_variant"] = {k: ("repaired" if v else "defect present") for k, v in variant.items()}
         chk.extra["code_variant"]["list_existing_dot_names"] = "repaired" if dots_ok else "defect present"
         observe_iterations(chk, root)
+        impl = detect_write_impl(chk, root, variant)
+        chk.extra["code_variant"]["group_file_write"] = ("through a temporary file renamed onto the group file"
+                                                          if impl == "viaTemp" else "in place (open 'wt', then write)")
         for kind, item in load_corpus():
             if kind == "fs":
                 handle_fs(chk, root, item)
+            elif kind == "tw":
+                handle_tw(chk, root, item, impl, variant, chk.pick(150, 400))
             elif kind == "ns":
                 if dots_ok or not any(n.strip(".") == "" for n in item["names"]):
                     handle_ns(chk, root, item)
             else:
                 handle_batch(chk, root, [item], variant)
+        # torn writes, I/O errors inside a write, a crash between the server's answer and the write that follows
+        t0 = _time.process_time(), _time.time()
+        for _ in range(chk.pick(70, 300)):
+            handle_tw(chk, root, gen_tw(chk.rng, chk, root), impl, variant, chk.pick(150, 300))
+        chk.extra["torn_write_family_seconds"] = {"cpu_python": round(_time.process_time() - t0[0], 1),
+                                                  "wall": round(_time.time() - t0[1], 1)}
         # listing and deleting the group files of a directory through JobGroup's own entry points
         for _ in range(chk.pick(200, 1200)):
             handle_ns(chk, root, gen_ns_script(chk.rng, chk, dots_ok))
@@ -2829,6 +3258,14 @@ def replay(chk, data):
             chk.case(("fs", script["style"]), True)
             for kind, sig, what in judge_fs(chk, root, script):
                 chk.fail(kind, sig, what, {"fs": script})
+            return
+        if "tw" in data["replay"]:
+            sc = data["replay"]["tw"]
+            variant = detect_variant(core.Check("C19", chk.tier, chk.seed), root)
+            chk.case(("tw", sc["torn"]["kind"]), True)
+            for impl in ([data["replay"]["impl"]] if "impl" in data["replay"] else ["inPlace"]):
+                for kind, sig, what in judge_tw(chk, root, sc, impl, variant, 150)["findings"]:
+                    chk.fail(kind, sig, what, {"tw": sc, "impl": impl})
             return
         if "ns" in data["replay"]:
             script = data["replay"]["ns"]
